@@ -15,7 +15,8 @@ from common import Ctx, Finding, Outcome
 PROPERTY = "C03"
 LEAN_TARGETS = ["QcelVerif.Props.C03", "QcelVerif.Model.UnitText", "QcelVerif.Gen.UnitNames", "QcelVerif.Lemmas.UnitNamesChk",
                 "QcelVerif.Props.C03NamesA", "QcelVerif.Props.C03NamesB", "QcelVerif.Props.C03NamesC", "QcelVerif.Props.C03NamesD",
-                "QcelVerif.Props.C03NamesE", "QcelVerif.Props.C03Text", "QcelVerif.Driver.C03"]
+                "QcelVerif.Props.C03NamesE", "QcelVerif.Props.C03Text", "QcelVerif.Model.UnitRender", "QcelVerif.Lemmas.UnitLex",
+                "QcelVerif.Lemmas.UnitBuild", "QcelVerif.Props.C03Parse", "QcelVerif.Driver.C03"]
 DRIVER = "QcelVerif/Driver/C03.lean"
 THEOREMS = [
     ("QcelVerif.Units.mag_ne_zero", "positive CODATA constants and non-zero numeric prefactors give a non-zero SI magnitude for every expression (discharges the hypotheses below)"),
@@ -53,6 +54,14 @@ THEOREMS = [
     ("QcelVerif.Units.Text.decimal_quantity_typeError", "a Quantity with a Decimal magnitude on either side is TypeError in conversion_factor (factor *= Decimal)"),
     ("QcelVerif.Units.Text.non_unit_objects", "two arguments that are neither str, Quantity nor Unit give factor 1 (both become None in ureg.convert)"),
     ("QcelVerif.Units.Text.implicit_mul_drops_factor_counterexample", "KNOWN DEFECT, code model on the regenerated data: conversion_factor('2 (3 m)', 'm') = 2 while the text means 6; '2 * (3 m)' gives 6"),
+    # ---- the round trip on rendered texts (Model/UnitRender.lean = this file's renderer, tied byte for byte by block RT)
+    ("QcelVerif.Units.Text.tokenize_render", "for every well-formed decorated expression e (any digits, any identifier-shaped names, any nesting) and any number of blanks around it, the modelled tokenizer (after ^ -> **) reads the rendered text as exactly the tokens of its pieces"),
+    ("QcelVerif.Units.Text.parse_tokens", "the modelled _build_eval_tree, with the step budget parse_expression's model gives it, turns the tokens of every well-formed decorated expression into exactly the tree the renderer had in mind (* / and juxtaposition left-associative, ** with the written exponent, parentheses as written)"),
+    ("QcelVerif.Units.Text.parseText_render", "parse_expression's model on the rendered text of every well-formed decorated expression = the expression it denotes (names through any registry's resolver; errors in evaluation order), SI reading"),
+    ("QcelVerif.Units.Text.parseImpl_render", "the same under pint's _eval_implicit_mul reading: the renderer only juxtaposes bare (powers of) unit names, so no factor is dropped"),
+    ("QcelVerif.Units.Text.render_roundtrip", "parse (render e) = ok e: when every name is a listed spelling (not one of the eight collisions) of the unit it was written for, the rendered text reads back — in both readings, over the regenerated registry names — as exactly the AST the generator wrote down (the normal form is the identity)"),
+    ("QcelVerif.Units.Text.conv_text_render", "conversion_factor's SI model on two rendered texts = conv of the two ASTs, so the group laws and the refusal of unrelated dimensions hold verbatim for every pair of texts the renderer can write"),
+    ("QcelVerif.Units.Text.convImpl_text_render", "the code model of conversion_factor on two rendered texts of equal dimension returns the ratio of the SI magnitudes of the two ASTs (positive CODATA set)"),
 ]
 TRUSTED_BASE = [
     "Lean 4.33 kernel; axioms per theorem audited on every run (subset of propext, Classical.choice, Quot.sound)",
@@ -62,6 +71,7 @@ TRUSTED_BASE = [
     "hand-written model convImpl of context.py:278-331 + ureg.py:131-193 + pint's UnitsContainer/context path, tied by differential correspondence at relative 1e-12",
     "hand-written model of the text front end (Model/UnitText.lean): string_preprocessor's ^ -> **, Python's tokenizer on the alphabet [A-Za-z0-9_ .+-*/^()] and blank, its bracket counter, pint_eval._build_eval_tree (transcribed branch by branch), EvalTreeNode.evaluate with _eval_implicit_mul, get_name/parse_unit_name/_dedup_candidates, and conversion_factor's handling of str / Quantity / Decimal-Quantity / Unit / other arguments — tied by differential correspondence on the STRINGS: the tree the model reads must equal the tree the generator wrote (exactly), values at relative 1e-12, error classes equal",
     "pint's registry contents, context graph and float evaluation (third party; inside the differential check)",
+    "the renderer of harness/c03.py (build_dtree draws the choices, render_d writes the text) is ported to Lean (Model/UnitRender.lean RExpr.render/renderTop); the port is tied on every run: for every text written through the renderer (all of blocks S, B, Bd, Bp, P, U, T, A and the composed source forms of Rl) the driver op `rend` prints RExpr.renderTop of the drawn decorated expression and it must equal the string that is sent byte for byte, the expression must satisfy the decidable hypotheses WF and Listed of Props/C03Parse.lean, and its erase/denote must be the generator's AST (block RT; mismatch kinds render_text / render_hypotheses / render_ast)",
     "harness/c03.py generators and the Python oracle",
 ]
 ASSUMPTIONS = [
@@ -71,7 +81,8 @@ ASSUMPTIONS = [
     "text front end: the model refuses as 'unsupported' (and the generators never write) characters outside [A-Za-z0-9_ .+-*/^()] and blank (tab, comma, %, unicode), //, %, binary + and -, exponents that are not an integer literal under signs/parentheses, a zero exponent, '_' or '.' directly after a number, a number with an exponent part directly followed by j/J (Python reads an imaginary literal: ValueError), the words per/squared/cubed/cubic/square/sq and dimensionless/inf/infinity/nan, registry units outside the table, more than 100 nested operators",
     "pint caches every prefixed unit it has resolved as a new registry key, so a doubly prefixed name ('kilokilometer') is refused by a fresh registry and accepted after 'km' was used once; the name set is exported from a fresh registry and doubly prefixed names are not generated (single prefixes resolve identically in both states — compared on every name)",
     "a non-unit object against a dimensionless unit-like argument is not modelled (pint's outcome depends on the side)",
-    "parse(render e) = e for every expression is NOT a theorem: the name half is (spellings_resolve, canon_names_resolve), the tokenizer/tree half is kernel-tested on concrete texts and tied differentially on every generated text",
+    "parse(render e) = e IS a theorem (render_roundtrip) for the grammar the renderer writes: non-negative number literals D*[.D*][e|E[+-]D+], identifier-shaped names, a*b a * b a/b a / b, blank juxtaposition before a bare (power of a) unit name, direct juxtaposition of a number and such a name (not j/J/_ first, no digit after a leading e/E), a**n a^n with blanks and the exponent written n +n -n (n) (-n) (- n), the right operand of * / a factor, the base of a power an atom, parentheses anywhere, blanks around the whole text. Outside it (not a theorem, tied differentially as before): texts composed by hand in blocks J (number juxtaposed to a parenthesis — the known defect class), X (malformed), Rl's literal spellings of 1/m when written by hand, and the relational prefactor texts '<p>*<text>' / '<p> * (<text>)' (sent to the implementation only); negative number literals (never generated)",
+    "the theorem is about the MODEL of the front end (Model/UnitText.lean); that pint's tokenizer, _build_eval_tree and registry behave like the model stays differential (tree equality on every generated text)",
 ]
 RULE = (
     "a case = (CODATA set, source AST, target AST), ASTs over {numeric prefactor, prefixed table unit, product, quotient, integer power}, "
@@ -91,6 +102,7 @@ RULE = (
     "expressions, dangling and doubled operators, unbalanced and empty parentheses; source side, target side, both): same error class; "
     "J a number juxtaposed to a parenthesised quantity with its own factor (known defect class) next to the explicit-'*' control; "
     "A argument kinds str / Quantity(float) / Quantity(int) / Unit / Quantity(Decimal) / other object on both sides. "
+    "RT every distinct text written through the renderer, with its decorated expression, against the Lean port of the renderer (byte for byte), the hypotheses of the round-trip theorems and the generator's AST. "
     "A case is distinct by (set, rendered source, rendered target) and counted non-trivial unless source and target render to the same string."
 )
 LEVEL_TEXT = (
@@ -100,7 +112,10 @@ LEVEL_TEXT = (
     "proved unambiguous over the registry's regenerated name set for all 8869 listed spellings except eight explicit collisions, whose resolution is "
     "proved too. That pint + ureg.py + context.py implement the code model — now including tokenizing, tree building, name resolution and the argument "
     "handling of conversion_factor, on the strings themselves — is differential (tree equality, relative 1e-12, error classes). parse(render e) = e is "
-    "not proved in general (names: proved; tokenizer/tree: kernel tests + differential). That every bridged factor the implementation returns agrees "
+    "now PROVED for the model of the front end and every text this harness's renderer can write (tokenizer, tree builder, evaluation and names: "
+    "tokenize_render, parse_tokens, render_roundtrip; conv_text_render carries the group laws to the rendered texts), the Lean renderer being tied "
+    "byte for byte to the strings that are sent and the theorems' hypotheses evaluated on every one of them; texts composed by hand (blocks J, X) stay "
+    "kernel-tested + differential. That every bridged factor the implementation returns agrees "
     "with the physics of its own CODATA set is checked by the oracle at the per-set tolerances. Three bridge defect classes and the dropped factor of "
     "'2 (3 m)' are proved as counter-examples and reported as known findings."
 )
@@ -507,52 +522,171 @@ def _unit_variant(p: int, b: str, rng) -> str:
     return sp
 
 
-def render(t, rng=None) -> str:
-    """string for pint: left-associative * and /, parentheses only where the AST needs them.  With `rng`: random spelling of
-    every unit (alias, symbol, plural), of every number, of the operators (`*`, juxtaposition, `**`/`^`, blanks) and of
-    negative exponents; without: one canonical text."""
+# ---- the renderer: draw the random choices into a *decorated* expression (`build_dtree`), then write it down (`render_d`).
+# `render_d` is ported to Lean (Model/UnitRender.lean `RExpr.renderTop`; driver op `rend|…`) and the two are compared byte for byte
+# on every text that is sent (block RT), so the theorems of Props/C03Parse.lean speak about the strings of this file.
+# decorated expressions:
+#   ("n", ip, fp, dotted, hasExp, capE, esign, ed)   a NUMBER literal as written (digit strings; esign 0 none / 1 '+' / 2 '-')
+#   ("u", pexp, base, name)                          a unit name as written (plural included)
+#   ("p", e)                                         ( e )
+#   ("b", dv, spaced, a, b)                          a*b  a * b  a/b  a / b
+#   ("j", blank, a, b)                               a b  ab
+#   ("w", crt, spL, spR, (paren, sign, blank, digits), a)     a**n  a^n … with the exponent written n, +n, (n), -n, (-n), (- n)
+#   ("raw", text)                                    something the Lean renderer does not model (a negative number): never generated
+
+import re as _re
+
+_NUM_RE = _re.compile(r"^(\d*)(\.(\d*))?(([eE])([+-]?)(\d+))?$")
+
+
+class RStr(str):
+    """a rendered text that remembers the decorated expression it was written from (`dt`) and the blanks around it"""
+    dt = None
+    pre = 0
+    post = 0
+
+
+def _rstr(text, dt, pre=0, post=0):
+    r = RStr(text)
+    r.dt, r.pre, r.post = dt, pre, post
+    return r
+
+
+def _numlit(s: str):
+    m = _NUM_RE.match(s)
+    if not m or (m.group(1) == "" and (m.group(3) or "") == ""):
+        return ("raw", s)
+    return ("n", m.group(1), m.group(3) or "", m.group(2) is not None, m.group(4) is not None, m.group(5) == "E",
+            {"": 0, "+": 1, "-": 2}[m.group(6) or ""], m.group(7) or "")
+
+
+_POW_OPS = {"**": (False, False, False), "^": (True, False, False), " ** ": (False, True, True), "^ ": (True, False, True),
+            " **": (False, True, False)}
+
+
+def render_d(d) -> str:
+    """the text of a decorated expression (deterministic; Lean: RExpr.render)"""
+    k = d[0]
+    if k == "n":
+        _, ip, fp, dotted, has_exp, cap, esign, ed = d
+        return ip + ("." + fp if dotted else "") + ((("E" if cap else "e") + ["", "+", "-"][esign] + ed) if has_exp else "")
+    if k == "u":
+        return d[3]
+    if k == "p":
+        return "(" + render_d(d[1]) + ")"
+    if k == "b":
+        sp = " " if d[2] else ""
+        return render_d(d[3]) + sp + ("/" if d[1] else "*") + sp + render_d(d[4])
+    if k == "j":
+        return render_d(d[2]) + (" " if d[1] else "") + render_d(d[3])
+    if k == "w":
+        _, crt, spl, spr, (paren, sign, blank, ds), a = d
+        x = ("(" if paren else "") + ["", "+", "-"][sign] + (" " if blank else "") + ds + (")" if paren else "")
+        return render_d(a) + (" " if spl else "") + ("^" if crt else "**") + (" " if spr else "") + x
+    if k == "raw":
+        return d[1]
+    raise ValueError(d)
+
+
+def enc_d(d) -> str:
+    """prefix notation of a decorated expression for the driver op `rend` (None: not expressible)"""
+    k = d[0]
+    f = lambda b: "1" if b else "0"  # noqa: E731
+    e = lambda s: s if s else "-"  # noqa: E731
+    if k == "n":
+        return f"n {e(d[1])} {e(d[2])} {f(d[3])} {f(d[4])} {f(d[5])} {d[6]} {e(d[7])}"
+    if k == "u":
+        return f"u {d[1]} {d[2]} {d[3]}"
+    if k == "p":
+        x = enc_d(d[1])
+        return None if x is None else "p " + x
+    if k in "bj":
+        x, y = enc_d(d[-2]), enc_d(d[-1])
+        if x is None or y is None:
+            return None
+        return (f"b {f(d[1])} {f(d[2])} " if k == "b" else f"j {f(d[1])} ") + x + " " + y
+    if k == "w":
+        x = enc_d(d[5])
+        paren, sign, blank, ds = d[4]
+        return None if x is None else f"w {f(d[1])} {f(d[2])} {f(d[3])} {f(paren)} {sign} {f(blank)} {e(ds)} " + x
+    return None
+
+
+def _unit_dtree(p: int, b: str, rng):
+    sp = _unit_variant(p, b, rng)
+    if sp.startswith("("):
+        return ("p", ("u", p, b, sp[1:-1]))
+    return ("u", p, b, sp)
+
+
+def build_dtree(t, rng=None):
+    """draw every choice of the rendering of t (left-associative * and /, parentheses only where the AST needs them).  With `rng`:
+    random spelling of every unit (alias, symbol, plural), of every number, of the operators (`*`, juxtaposition, `**`/`^`, blanks)
+    and of negative exponents; without: one canonical text."""
     k = t[0]
     if k == "n":
-        return t[1] if rng is None else _num_variant(t[1], rng)
+        return _numlit(t[1] if rng is None else _num_variant(t[1], rng))
     if k == "u":
-        sp = spellings(t[1], t[2])
-        return sp[0] if rng is None else _unit_variant(t[1], t[2], rng)
+        if rng is None:
+            return ("u", t[1], t[2], spellings(t[1], t[2])[0])
+        return _unit_dtree(t[1], t[2], rng)
     if k in "*/":
-        a, b = render(t[1], rng), render(t[2], rng)
+        da, db = build_dtree(t[1], rng), build_dtree(t[2], rng)
         if t[2][0] in "*/":
-            b = "(" + b + ")"
+            db = ("p", db)
         if t[1][0] == "n" and t[1][1].startswith("-"):
-            a = "(" + a + ")"
+            da = ("p", da)
         op = k if rng is None else rng.choice([k, f" {k} "])
-        if k == "*" and rng is not None and b[0].isalpha() and t[2][0] in "u^" and rng.random() < 0.3:
+        if k == "*" and rng is not None and render_d(db)[0].isalpha() and t[2][0] in "u^" and rng.random() < 0.3:
             # juxtaposition: only before a bare (power of a) unit name — a juxtaposed parenthesis binds to the operand before
             # it whatever the pending operator, and a number juxtaposed to a quantity with its own factor drops that factor
             # (block J exercises that class on purpose)
             # (`1e2joule` is outside the model: Python reads `1e2j` as an imaginary literal — a blank is always written there)
-            op = "" if (t[1][0] == "n" and a[-1].isdigit() and b[0] not in "jJ" and rng.random() < 0.5) else " "
-        return a + op + b
-    a = render(t[1], rng)
+            direct = t[1][0] == "n" and render_d(da)[-1].isdigit() and render_d(db)[0] not in "jJ" and rng.random() < 0.5
+            return ("j", not direct, da, db)
+        return ("b", k == "/", op != k, da, db)
+    da = build_dtree(t[1], rng)
     if t[1][0] != "u":
-        a = "(" + a + ")"
+        da = ("p", da)
     op = "**" if rng is None else rng.choice(["**", "^", " ** ", "^ ", " **"])
     if t[2] >= 0:
         n = str(t[2]) if rng is None else rng.choice([str(t[2]), str(t[2]), f"({t[2]})", f"+{t[2]}"])
     else:
         n = str(t[2]) if rng is None else rng.choice([str(t[2]), f"({t[2]})", f"(- {-t[2]})"])
-    return a + op + n
+    paren = n.startswith("(")
+    body = n.strip("()")
+    sign = 1 if body.startswith("+") else 2 if body.startswith("-") else 0
+    blank = " " in body
+    crt, spl, spr = _POW_OPS[op]
+    return ("w", crt, spl, spr, (paren, sign, blank, body.lstrip("+- ")), da)
+
+
+def render(t, rng=None) -> str:
+    """string for pint (an `RStr`: it carries the decorated expression it was written from)"""
+    d = build_dtree(t, rng)
+    return _rstr(render_d(d), d)
+
+
+def spelled(p: int, b: str, name: str) -> str:
+    """a unit name written directly by a generator block, as a rendered text"""
+    return _rstr(name, ("u", p, b, name))
 
 
 def decorate_top(s: str, rng) -> str:
     """blanks around the whole text / one more pair of parentheses"""
     r = rng.random()
+    dt = getattr(s, "dt", None)
+    pre, post = getattr(s, "pre", 0), getattr(s, "post", 0)
     if r < 0.06:
-        return " " + s
+        return _rstr(" " + s, dt, pre + 1, post)
     if r < 0.12:
-        return s + " "
+        return _rstr(s + " ", dt, pre, post + 1)
     if r < 0.15:
-        return "  " + s + "  "
+        return _rstr("  " + s + "  ", dt, pre + 2, post + 2)
     if r < 0.19:
-        return "(" + s + ")"
+        if dt is None or pre or post:
+            return "(" + s + ")"
+        return _rstr("(" + s + ")", ("p", dt))
     return s
 
 
@@ -836,23 +970,43 @@ def rel_targets(y):
         DIV(U("eV"), U("mole"))]
 
 
+def _invm_dt(sp):
+    """the decorated expression of each hand-written spelling of 1/m (INVM_SPELLINGS)"""
+    one = ("n", "1", "", False, False, False, 0, "")
+    m = lambda n: ("u", 0, "meter", n)  # noqa: E731
+    return {"1/m": ("b", True, False, one, m("m")), "1/meter": ("b", True, False, one, m("meter")),
+            "1 / metre": ("b", True, True, one, m("metre")), "m**-1": ("w", False, False, False, (False, 2, False, "1"), m("m")),
+            "meter^-1": ("w", True, False, False, (False, 2, False, "1"), m("meter")),
+            "m**(-1)": ("w", False, False, False, (True, 2, False, "1"), m("m")), "1/(m)": ("b", True, False, one, ("p", m("m")))}[sp]
+
+
+def _written(d):
+    """a hand-composed decorated expression as the text it stands for"""
+    return _rstr(render_d(d), d)
+
+
 def rel_source_forms(rng, x):
     """(AST, string) forms of the source that keep the relationship of X selected: every spelling of the bare unit, numeric
     prefactors in the three ways context.py:278-331 accepts them, and (energies) the per-mole form that reaches the same literal"""
     t = REL_SOURCE[x]
     if x == "invm":
-        pairs = [(INVM_AST[sp], sp) for sp in INVM_SPELLINGS]
+        pairs = [(INVM_AST[sp], _written(_invm_dt(sp))) for sp in INVM_SPELLINGS]
+        assert [str(p[1]) for p in pairs] == INVM_SPELLINGS
     else:
-        pairs = [(t, sp) for sp in spellings(t[1], t[2])]
+        pairs = [(t, spelled(t[1], t[2], sp)) for sp in spellings(t[1], t[2])]
     forms = list(pairs)
     for n in rng.sample(DEC_NUMS, 2):
         tx, sp = rng.choice(pairs)
         tn = MUL(N(n), tx)
-        forms += [(tn, f"{n}*{sp}" if x != "invm" else f"{n}*({sp})"), (tn, f"{n} * ({sp})")]
+        dn = _numlit(n)
+        # "{n}*{sp}" ("{n}*({sp})" for 1/m), "{n} * ({sp})", "{n} {sp}"
+        forms += [(tn, _written(("b", False, False, dn, sp.dt if x != "invm" else ("p", sp.dt)))), (tn, _written(("b", False, True, dn, ("p", sp.dt))))]
         if x != "invm":
-            forms.append((tn, f"{n} {sp}"))
+            forms.append((tn, _written(("j", True, dn, sp.dt))))
     if x in ("ev", "hartree", "joule"):
-        forms += [(DIV(t, U("mole")), rng.choice(pairs)[1] + rng.choice(["/mol", " / mole", "/mole"]))]
+        src = rng.choice(pairs)[1]
+        mol = rng.choice([(False, "mol"), (True, "mole"), (False, "mole")])     # "/mol", " / mole", "/mole"
+        forms += [(DIV(t, U("mole")), _written(("b", True, mol[0], src.dt, ("u", 0, "mole", mol[1]))))]
     return forms
 DEC_NUMS = ["2", "3", "0.5", "2.5", "10", "1e-3", "1.25e2", "7", "0.125", "4.184", "1000", "1e6"]
 
@@ -909,9 +1063,9 @@ def gen_cases(ctx: Ctx):
                 year = rng.choice(years)
                 bare = rng.choice(spellings(0, b))
                 if rng.random() < 0.5:
-                    yield ("P", year, U(b, p), U(b), sp, bare)
+                    yield ("P", year, U(b, p), U(b), spelled(p, b, sp), spelled(0, b, bare))
                 else:
-                    yield ("P", year, U(b), U(b, p), bare, sp)
+                    yield ("P", year, U(b), U(b, p), spelled(0, b, bare), spelled(p, b, sp))
     # ---- S: all ordered pairs of the seed corpus per dimension class, decorated
     reps = ctx.scale(1, 6)
     for year in years:
@@ -1238,6 +1392,52 @@ def _show(r):
 
 # --------------------------------------------------------------------------------------
 
+# --------------------------------------------------------------------------------------
+# block RT: the renderer of this file against its Lean port (Model/UnitRender.lean), and the hypotheses of Props/C03Parse.lean
+
+def render_tie(ctx: Ctx, out: Outcome, pairs):
+    """pairs: (AST, text).  For every text written through the renderer: (1) `RExpr.renderTop` of the decorated expression is this
+    very text, byte for byte; (2) the decorated expression satisfies the hypotheses `WF` and `Listed` of `render_roundtrip` /
+    `conv_text_render`; (3) `erase` and `denote` of it are the AST the generator wrote down.  With (1)-(3) the theorem says that the
+    Lean front end reads the text that was sent as that AST — for every such text, not only the sampled ones."""
+    seen, items = set(), []
+    for t, s in pairs:
+        dt = getattr(s, "dt", None)
+        e = enc_d(dt) if dt is not None else None
+        if e is None:
+            out.count("render-tie:text written by hand, not through the renderer")
+            continue
+        line = f"rend|{s.pre}|{s.post}|{e}"
+        if (line, enc(t)) in seen:
+            continue
+        seen.add((line, enc(t)))
+        items.append((t, str(s), line))
+    if not items or not ctx.model_available:
+        return
+    for (t, text, line), m in zip(items, ctx.run_model(DRIVER, [it[2] for it in items])):
+        check_render(out, enc(t), text, line, m)
+
+
+def check_render(out: Outcome, ast: str, text: str, line: str, m: str):
+    out.evaluations += 1
+    out.count("text:render-tie")
+    case = {"block": "RT", "ast": ast, "text": text, "line": line}
+    parts = m.split(";", 4)
+    if len(parts) != 5 or not parts[4].startswith("txt "):
+        out.mismatches.append(Finding("mismatch:render_driver", case, observed=m, expected="wf ..;listed ..;ast ..;den ..;txt .."))
+        return
+    wf, listed, ast_m, den, txt = parts[0], parts[1], parts[2][4:], parts[3][4:], parts[4][4:]
+    if txt != text:
+        out.mismatches.append(Finding("mismatch:render_text", case, observed=txt, expected=text,
+                                      detail="Lean RExpr.renderTop vs the string this harness sends (byte for byte)"))
+    if (wf, listed) != ("wf 1", "listed 1"):
+        out.mismatches.append(Finding("mismatch:render_hypotheses", case, observed=f"{wf};{listed}", expected="wf 1;listed 1",
+                                      detail="a generated text is outside the hypotheses of Props/C03Parse.lean (WF / Listed)"))
+    if ast_m != ast or den != ast:
+        out.mismatches.append(Finding("mismatch:render_ast", case, observed=f"{ast_m} | {den}", expected=ast,
+                                      detail="erase / denote of the decorated expression vs the AST the generator wrote down"))
+
+
 def conv_line(year, sa, sb):
     """the two TEXTS go to the Lean model (Model/UnitText.lean parses them); `|` and newlines are outside its alphabet"""
     assert "|" not in sa and "|" not in sb and "\n" not in sa + sb
@@ -1263,6 +1463,8 @@ def run(ctx: Ctx) -> Outcome:
             out.nontrivial((year, sa, sb))
         if len(out.samples) < 6 and rng.random() < 0.002:
             out.sample({"set": year, "source": sa, "target": sb, "impl": canon(res), "model": ml})
+    render_tie(ctx, out, [(t, x) for (_, _, ta, tb, sa, sb) in cases for (t, x) in ((ta, sa), (tb, sb))]
+               + [(t, x) for (_, ts, ss) in triples for (t, x) in zip(ts, ss)])
     relational(ctx, out, cases, results)
     triple_checks(ctx, out, triples)
     typed_routes(ctx, out)
@@ -1665,6 +1867,7 @@ def arg_block(ctx: Ctx, out: Outcome, cases=None):
         objs.append((oa, ob, ea, eb))
         lines.append(f"convs|{year}|{ea}|{eb}")
     cases = kept
+    render_tie(ctx, out, [(t, x) for cs in cases for (t, x) in ((cs[3], cs[4]), (cs[7], cs[8]))])
     ml = ctx.run_model(DRIVER, lines) if ctx.model_available else [None] * len(lines)
     for (year, ka, p, ta, sa, kb, q, tb, sb), (oa, ob, ea, eb), m in zip(cases, objs, ml):
         res = call_impl(year, oa, ob)
@@ -1717,6 +1920,10 @@ def replay(ctx: Ctx, case) -> Outcome:
     block = case.get("block", "?")
     if block == "T":
         triple_checks(ctx, out, [(case["year"], [_tup(t) for t in case["ts"]], case["ss"])])
+        return out
+    if block == "RT":
+        if ctx.model_available:
+            check_render(out, case["ast"], case["text"], case["line"], ctx.run_model(DRIVER, [case["line"]])[0])
         return out
     if block in ("Q", "D", "R", "F"):
         typed_routes(ctx, out)
